@@ -48,6 +48,18 @@ AsgCtx(b) == { <<"var", "IDx", "eval">> \o b, <<"var", "IDx", "print">> \o b, <<
                <<"def", "IDx", "{">> \o b \o <<"}">> }
 PickAsg == /\ Scope = "assign" /\ phase = 0 /\ \E b \in AsgBodies : \E t \in AsgCtx(b) : ts' = t
            /\ phase' = 1 /\ UNCHANGED <<must, lines>>
+\* ---- the bind statement: every token of the full vocabulary as selector and as target ("bindsel"), after one block
+BindSel == /\ Scope = "bindsel" /\ phase = 0
+           /\ \E sl \in VocabFull \cup {"none"}, tg \in VocabFull :
+                ts' = <<"def", "IDx", "{", "}", "bind", "IDx">> \o (IF sl = "none" THEN <<>> ELSE <<":", sl>>) \o <<"->", tg>>
+           /\ phase' = 1 /\ UNCHANGED <<must, lines>>
+\* ---- comments are layout: a '#' comment up to CR, LF or the end of input may follow any token ("comments")
+CmtSeps == << <<32>>, <<35, 99, 10>>, <<35, 99, 13>>, <<32, 35, 32, 41, 32, 34, 13, 10>>, <<35, 13>>, <<35, 10>> >>
+GrowCmt == /\ Scope = "comments" /\ Len(ts) < MaxLen /\ \E k \in Vocab, c \in 1..Len(CmtSeps) : ts' = Append(ts, k) /\ must' = must \cup {<<Len(ts) + 1, c>>}
+           /\ UNCHANGED <<phase, lines>>
+SepOf(i) == IF \E c \in 1..Len(CmtSeps) : <<i, c>> \in must THEN CmtSeps[CHOOSE c \in 1..Len(CmtSeps) : <<i, c>> \in must] ELSE <<32>>
+RECURSIVE SrcCmt(_, _)
+SrcCmt(s, i) == IF i > Len(s) THEN <<>> ELSE Spell(s[i]) \o SepOf(i) \o SrcCmt(s, i + 1)
 \* ---- recovery programs: statements as token lists; each on its own line
 Good == { <<"var", "IDx">>, <<"var", "IDx", "=", "INT1">>, <<"print", "INT1", "+", "INT2">>, <<"eval", "INT2">>,
           <<"def", "IDx", "{", "IDx", "=", "INT1", "}">>, <<"print", "(", "INT1", ")", ";">> }
@@ -72,7 +84,7 @@ MustLines(ls, i, acc) ==
   ELSE IF ls[i] \in TailStop THEN MustLines(ls, i + 1, [acc EXCEPT ![i + 1] = @ + 1])
   ELSE MustLines(ls, i + 1, acc)
 Zeros(n) == [i \in 1..n |-> 0]
-Next == GrowAll \/ GrowViable \/ Mutate \/ RecGrow \/ PickAsg
+Next == GrowAll \/ GrowViable \/ Mutate \/ RecGrow \/ PickAsg \/ BindSel \/ GrowCmt
 Spec == Init /\ [][Next]_vars
 
 RECURSIVE SrcLines(_)
@@ -81,8 +93,8 @@ RECURSIVE Flat(_)
 Flat(ls) == IF ls = <<>> THEN <<>> ELSE Head(ls) \o Flat(Tail(ls))
 RECURSIVE SetToSeq(_)
 SetToSeq(S) == IF S = {} THEN <<>> ELSE LET m == CHOOSE x \in S : \A y \in S : x <= y IN <<m>> \o SetToSeq(S \ {m})
-Emit == (Scope # "recover" /\ (Scope # "assign" \/ phase = 1)) =>
-        PrintT(<<"CASE", ToJson([fam |-> "gram", src |-> Src(ts), acc |-> Accepts(ts), der |-> Derives(ts), n |-> Len(ts),
+Emit == (Scope # "recover" /\ (Scope \notin {"assign", "bindsel"} \/ phase = 1)) =>
+        PrintT(<<"CASE", ToJson([fam |-> "gram", src |-> IF Scope = "comments" THEN SrcCmt(ts, 1) ELSE Src(ts), acc |-> Accepts(ts), der |-> Derives(ts), n |-> Len(ts),
                                    mut |-> (phase = 1), must |-> <<>>])>>)
 EmitR == (Scope = "recover" /\ lines # <<>>) =>
          PrintT(<<"CASE", ToJson([fam |-> "gram", src |-> SrcLines(lines), acc |-> Accepts(Flat(lines)), der |-> Derives(Flat(lines)),
